@@ -166,7 +166,8 @@ def tlc_cached(name, module, cfg, workers=12, timeout=3600, simulate=None, tlc_s
         ok = rc in (0,) and "Error:" not in text
     if expect_violation:
         # a demonstration model (code as found before a repair): TLC must find the violation
-        ok = f"Invariant {expect_violation} is violated" in text
+        ok = (f"Invariant {expect_violation} is violated" in text
+              or f"Action property {expect_violation} is violated" in text)
     if not ok:
         os.remove(tmp)
         raise ToolError(f"TLC run {name} failed (rc={rc}):\n{text[-3000:]}")
